@@ -18,6 +18,7 @@ Decided:
  V6 ring buffer index arithmetic: add/drain are folded for every (capacity<=5, start, used, n): the copies performed
     write exactly bytes i -> slot (start+used+i) mod capacity (add) and read slot (start+i) mod capacity -> out[i]
     (drain), with used/start updated accordingly; add refuses exactly when n > free.
+ V11 wrap-safe counters and completion test (= C03.E5 / E9).  V12 = C03.E1 / E2 (lengths / ids from the used-ring slot).
 Not decided: loss-freedom of the stream and the credit inequality over histories.
 """
 from .common import *
